@@ -385,7 +385,8 @@ pub fn gen_framework(rng: &mut Rng, p: &GenParams) -> FwSpec {
         })
         .collect();
     let n = rng.weighted(&n_weights);
-    let n_comp = if n >= 2 && rng.below(100) >= p.single_component_pct { rng.weighted(&[50, 35, 15]) + 1 } else { 1 };
+    // up to 6 components (4..6 in about one multi-component framework in eight)
+    let n_comp = if n >= 2 && rng.below(100) >= p.single_component_pct { (rng.weighted(&[46, 30, 12, 5, 4, 3]) + 1).min(n) } else { 1 };
     // split n into components
     let mut sizes = vec![0usize; n_comp];
     for _ in 0..n {
@@ -409,7 +410,10 @@ pub fn gen_framework(rng: &mut Rng, p: &GenParams) -> FwSpec {
     }
     if overbuild {
         // extra arguments (labels n..n+x) interleaved, with attacks, all removed afterwards
-        let extra = rng.range(1, 3);
+        // 1 in 25 of these is HEAVY: dozens to hundreds of transient arguments with their attacks, so
+        // that the live arguments end up with large, sparse ids and the store with many tombstones
+        let heavy = rng.chance(1, 25);
+        let extra = if heavy { *rng.pick(&[30usize, 40, 64, 70, 100, 130, 300]) } else { rng.range(1, 3) };
         let mut all: Vec<L> = order.clone();
         for e in 0..extra {
             let at = rng.below(all.len() + 1);
@@ -421,7 +425,7 @@ pub fn gen_framework(rng: &mut Rng, p: &GenParams) -> FwSpec {
         let mut extra_atts = vec![];
         for e in 0..extra {
             let x = (n + e) as L;
-            for _ in 0..rng.range(1, 3) {
+            for _ in 0..rng.range(1, if heavy { 5 } else { 3 }) {
                 let y = *rng.pick(&all);
                 if rng.bool() {
                     extra_atts.push((x, y));
@@ -482,6 +486,13 @@ pub fn shrink_fw(spec: &FwSpec) -> Vec<FwSpec> {
             out.push(FwSpec { route: Route::ApiUsize, ops: spec.ops.clone() });
         }
         _ => {}
+    }
+    // long op lists (heavy overbuild): blocks of ops first
+    if spec.ops.len() > 80 {
+        for ops in crate::framework::list_removals(&spec.ops) {
+            out.push(FwSpec { route: spec.route, ops });
+        }
+        return out;
     }
     // drop one op (dropping AddArg also drops ops that mention the label)
     for i in 0..spec.ops.len() {
